@@ -42,10 +42,16 @@ def rebuilt(node, prime=None):
         return None
     # every array parameter the operator had before it was used gets the other data; whatever else the flattened operator lists
     # after the use (nothing, for an operator that is a value) gets other data too, as a caller's tree_map would give it
+    if len(ps) == len(before):
+        return unflatten(list(pt)), node2  # (the usual case: the used operator lists the same parameters as before)
     new = []
     for a in ps:
         j = next((i for i, b in enumerate(before) if a is b), None)
-        new.append(pt[j] if j is not None else (a * 2 if isinstance(a, np.ndarray) and a.dtype.kind in "fc" else a))
+        if j is None and not any(isinstance(b, np.ndarray) and b.shape == np.shape(a) and np.array_equal(b, a) for b in before):
+            new.append(a * 2 if isinstance(a, np.ndarray) and a.dtype.kind in "fc" else a)
+        else:
+            j = j if j is not None else next(i for i, b in enumerate(before) if isinstance(b, np.ndarray) and b.shape == np.shape(a) and np.array_equal(b, a))
+            new.append(pt[j])
     return unflatten(new), node2
 
 
